@@ -73,6 +73,7 @@ def run_case(data):
     conn_truth = 65535
     response_fed = False
     conn_dead = False
+    used = manual1 = 0
     if ch.bool():
         response_fed = client
         # the peer has already used most of the probe stream's window (never acknowledged here): an acknowledged
@@ -84,14 +85,27 @@ def run_case(data):
             return r
         win_truth -= 3 * 16384
         conn_truth -= 3 * 16384
+        used = 3 * 16384
         r.labels.add('probe-stream-window-partly-used')
+    if ch.chance(96):
+        # the application has enlarged the probe stream's window (and the connection's, so that it stays visible)
+        # by hand: an INITIAL_WINDOW_SIZE change still moves it by the difference of the two settings values
+        manual1 = ch.pick([1, 5000, 100000])
+        o = s.call('increment_flow_control_window', manual1, 1)
+        o2 = s.call('increment_flow_control_window', 200000)
+        if not o.ok or not o2.ok:
+            r.violate('C11:harness:manual-increment-refused', '%s %s' % (o.brief(), o2.brief()))
+            return r
+        win_truth += manual1
+        conn_truth += 200000
+        r.labels.add('probe-stream-window-enlarged-by-hand')
     r.step('role', 'client' if client else 'server')
 
     def probes(where):
         truth = dev_cur if diverged else rfc_cur
         for psid in probe_sids:
             q = s.call('remote_flow_control_window', psid)
-            if q.ok and q.value != min(conn_truth, win_truth if psid == 1 else win_truth + 65535 - conn_truth):
+            if q.ok and q.value != min(conn_truth, win_truth if psid == 1 else win_truth + used - manual1):
                 r.violate('C11:governed-window-wrong:%s' % where, 'stream %d library %r model %r' %
                           (psid, q.value, win_truth))
         if s.c.max_inbound_frame_size != truth[5]:
@@ -123,6 +137,9 @@ def run_case(data):
                     new[k] = ch.pick(VALID[k])
                 else:
                     new[k] = ch.u16()
+            if manual1 and new.get(4, 0) > 2**31 - 1 - 400000:
+                # our own INITIAL_WINDOW_SIZE change would overflow the window we enlarged by hand: not generated
+                new[4] = 2**30
             o = s.call('update_settings', dict(new))
             r.step('update_settings', new, o.brief())
             if not o.ok:
@@ -234,10 +251,6 @@ def run_case(data):
                 k = ch.pick([1, 2, 3, 4, 5, 6, 8, 0x10, 0xfff0])
                 if k in [p[0] for p in pairs]:
                     continue
-                if k == 1 and spare_stream:
-                    # (cases that will emit a header block later keep the peer's table size fixed: hpack.Encoder
-                    # mishandles two size changes before the next block - trusted base, see C13)
-                    continue
                 if k == 2:
                     v = 0 if client else ch.int(0, 1)
                 elif k in VALID:
@@ -259,6 +272,7 @@ def run_case(data):
             if not o.ok:
                 r.violate('C11:valid-settings-rejected:%s' % o.exc_name, repr(pairs))
                 break
+            s.note_peer_settings(pairs + (second or []))     # the mirror decoder follows the announced table size
             evs = [e for e in o.events if e[0] == 'RemoteSettingsChanged']
             old_remote_mfs = remote.get(5)
             want = [sorted((k, remote.get(k), v) for k, v in pairs)]
@@ -348,6 +362,18 @@ def run_case(data):
             elif count + 1 > lim and accepted:
                 r.violate('C11:stream-beyond-acknowledged-limit-accepted', '%d open, limit %d' % (count, lim))
             r.labels.add('final-probe')
+    if client and not real_violation() and not conn_dead and truth.get(2) == 0 and not fifo and ch.bool():
+        # ENABLE_PUSH = 0 has been acknowledged: a PUSH_PROMISE is a connection error (RFC 7540 s6.6) wherever it
+        # arrives - on the live request stream, or on one we have reset and forgotten
+        forgotten = ch.bool()
+        if forgotten:
+            s.call('reset_stream', 1)
+            s.c.open_outbound_streams
+        o = s.feed(wire.push_promise(1, 4, raw_block(REQ)))
+        r.step('final probe: PUSH_PROMISE with push disabled', 'on a forgotten stream' if forgotten else '', o.brief())
+        if o.ok or not o.is_protocol_error() or o.code != wire.PROTOCOL_ERROR:
+            r.violate('C11:push-promise-accepted-after-acknowledged-disable', o.brief())
+        r.labels.add('final-probe-push-disabled')
     if s.out_problems:
         r.violate('C11:malformed-output', repr(s.out_problems))
     r.nontrivial = two_outstanding or raised_then_ok
